@@ -322,6 +322,7 @@ BW_MidiSequencer::BW_MidiSequencer() :
     m_triggerHandler(NULL),
     m_triggerUserData(NULL)
 {
+    std::memset(m_channelDisable, 0, sizeof(m_channelDisable));
     m_loop.reset();
     m_loop.invalidLoop = false;
     m_time.init();
